@@ -105,28 +105,6 @@ pub fn join_remaining(part: &OsString, rest: &VecDeque<OsString>) -> (r: PathBuf
 #[verifier::external_body]
 pub fn dot_then_components(expected: &Path) -> (r: PathBuf) ensures r@ == dot_then(expected@) { unimplemented!() }
 
-/// resolvers/opath/symlink_stack.rs (U21); `all_in_root`: every saved directory handle is in the root
-// (impl SymlinkStack is proved against its specification in U25; the contracts below follow from it: a saved directory is only ever returned, never altered)
-#[verifier::external_body]
-#[verifier::reject_recursive_types(F)]
-pub struct SymlinkStack<F> { _p: core::marker::PhantomData<F> }
-#[verifier::external_body]
-pub struct SymlinkStackErrorOpaque { _p: () }
-impl SymlinkStack<OwnedFd> {
-    // Representation invariant of the type (U21): every saved directory handle entered through
-    // swap_link, whose precondition demands that it is in the root; so every handle that
-    // pop_top_symlink hands back is in the root.
-    #[verifier::external_body]
-    pub fn new() -> (r: Self) { unimplemented!() }
-    #[verifier::external_body]
-    pub fn pop_part(&mut self, part: &OsString) -> (r: Result<(), SymlinkStackError>) { unimplemented!() }
-    #[verifier::external_body]
-    pub fn swap_link(&mut self, link_part: &OsString, dir_and_remaining: (&Rc<OwnedFd>, PathBuf), link_target: PathBuf) -> (r: Result<(), SymlinkStackError>)
-            { unimplemented!() }
-    #[verifier::external_body]
-    pub fn pop_top_symlink(&mut self) -> (r: Option<(Rc<OwnedFd>, PathBuf)>)
-    { unimplemented!() }
-}
 //@item src/utils/path.rs :: struct RawComponents | sub.derive_debug
 impl PathBuf {
     #[verifier::external_body]
